@@ -52,7 +52,7 @@ func (s *stageResult) add(op, real, model, note string) {
 
 // compare runs ops through the driver and compares with the real outputs
 func compareOps(s *stageResult, d *driver, ops []string, real []string) {
-	model := d.run(ops)
+	model := d.runParallel(ops)
 	for i := range ops {
 		s.Evaluations++
 		if model[i] != real[i] {
@@ -366,6 +366,16 @@ func restFamily(alg byte, thorough bool) [][]byte {
 			}
 			add(enc(run...), enc(nu))
 			add(enc(run...), enc(al))
+		}
+		// what the LB25 look-ahead skips is decided by (Line_Break, General_Category): one code point of every
+		// such pair of the current tables in the skipped position, a digit behind it
+		seenLG := map[[2]int]bool{}
+		for _, sg := range ci.sigs {
+			k := [2]int{sg.l, sg.gc}
+			if !seenLG[k] {
+				seenLG[k] = true
+				add(enc(ci.reps[sg][0], nu))
+			}
 		}
 		if thorough {
 			for _, r := range algReps('L') {
@@ -748,24 +758,44 @@ func recordDist(dd *dist, seen map[string]bool, gc genCase) {
 }
 
 func e5Ops(amb int, b []byte) (ops, real []string, realStr []string) {
+	return e5OpsWant(amb, b, nil)
+}
+
+// e5OpsWant: only the entry points want() accepts are run (nil: all)
+func e5OpsWant(amb int, b []byte, want func(string) bool) (ops, real []string, realStr []string) {
 	h := hx(b)
 	add := func(op, r, rs string) {
 		ops = append(ops, op)
 		real = append(real, r)
 		realStr = append(realStr, rs)
 	}
+	w := func(k string) bool { return want == nil || want(k) }
 	for _, k := range []string{"fg", "fw", "fs", "fl"} {
-		add(fmt.Sprintf("chain %s %d %s", k, amb, h), realChain(k, b, false), realChain(k, b, true))
+		if w(k) {
+			add(fmt.Sprintf("chain %s %d %s", k, amb, h), realChain(k, b, false), realChain(k, b, true))
+		}
 	}
-	add(fmt.Sprintf("chain st %d %s", amb, h), realChain("st", b, false), "")
-	add(fmt.Sprintf("chain sts %d %s", amb, h), realChain("st", b, true), "")
+	if w("st") {
+		add(fmt.Sprintf("chain st %d %s", amb, h), realChain("st", b, false), "")
+	}
+	if w("sts") {
+		add(fmt.Sprintf("chain sts %d %s", amb, h), realChain("st", b, true), "")
+	}
 	enter(b, "StringWidth/GraphemeClusterCount/ReverseString/HasTrailingLineBreak")
 	defer leave()
-	add(fmt.Sprintf("sw %d %s", amb, h), protect(func() string { return fmt.Sprint(u.StringWidth(string(b))) }), "")
-	add("gcc "+h, protect(func() string { return fmt.Sprint(u.GraphemeClusterCount(string(b))) }), "")
-	add("rev "+h, protect(func() string { return hx([]byte(u.ReverseString(string(b)))) }), "")
-	add("htlb "+h, protect(func() string { return fmt.Sprint(b2i(u.HasTrailingLineBreak(b))) }),
-		protect(func() string { return fmt.Sprint(b2i(u.HasTrailingLineBreakInString(string(b)))) }))
+	if w("sw") {
+		add(fmt.Sprintf("sw %d %s", amb, h), protect(func() string { return fmt.Sprint(u.StringWidth(string(b))) }), "")
+	}
+	if w("gcc") {
+		add("gcc "+h, protect(func() string { return fmt.Sprint(u.GraphemeClusterCount(string(b))) }), "")
+	}
+	if w("rev") {
+		add("rev "+h, protect(func() string { return hx([]byte(u.ReverseString(string(b)))) }), "")
+	}
+	if w("htlb") {
+		add("htlb "+h, protect(func() string { return fmt.Sprint(b2i(u.HasTrailingLineBreak(b))) }),
+			protect(func() string { return fmt.Sprint(b2i(u.HasTrailingLineBreakInString(string(b)))) }))
+	}
 	return
 }
 
@@ -779,16 +809,13 @@ func stageE5(d *driver, cs *caseSource, dd *dist, only map[string]bool, thorough
 			ops, real = ops[:0], real[:0]
 		}
 	}
+	flushAt := 20000
+	var algOnly map[string]bool // small-scope streams: only the entry points of the alphabet's algorithm
 	handle := func(b []byte) {
-		o, r, rs := e5Ops(cs.amb, b)
+		o, r, rs := e5OpsWant(cs.amb, b, func(k string) bool {
+			return (only == nil || only[k]) && (algOnly == nil || algOnly[k])
+		})
 		for i := range o {
-			opname := strings.Fields(o[i])[0]
-			if opname == "chain" {
-				opname = strings.Fields(o[i])[1]
-			}
-			if only != nil && !only[opname] {
-				continue
-			}
 			ops = append(ops, o[i])
 			real = append(real, r[i])
 			if rs[i] != "" && rs[i] != r[i] {
@@ -804,7 +831,7 @@ func stageE5(d *driver, cs *caseSource, dd *dist, only map[string]bool, thorough
 				}
 			}
 		}
-		if len(ops) >= 20000 {
+		if len(ops) >= flushAt {
 			flush()
 		}
 	}
@@ -818,18 +845,39 @@ func stageE5(d *driver, cs *caseSource, dd *dist, only map[string]bool, thorough
 		recordDist(dd, seen, gc)
 		handle(gc.input)
 	})
-	if thorough {
-		for _, alg := range []byte("GWSL") {
-			n := 3
-			if alg == 'G' {
-				n = 4
+	flush()
+	// small scope, exhaustive: every sequence of up to 3-5 symbols over an alphabet with an ASCII and a
+	// non-ASCII member of every class of the algorithm, U+FFFD and an ill-formed byte, through the entry
+	// points of that algorithm (and, one symbol shorter, through Step/StepString)
+	flushAt = 400000
+	anyWanted := func(m map[string]bool) bool {
+		for k := range m {
+			if only == nil || only[k] {
+				return true
 			}
-			shortSequences(alg, n, func(b []byte) {
+		}
+		return false
+	}
+	for _, alg := range []byte("GWSL") {
+		n, nFull := smallScopeLen(alg, thorough)
+		algOnly = map[byte]map[string]bool{
+			'G': {"fg": true, "gcc": true, "rev": true, "sw": true},
+			'W': {"fw": true}, 'S': {"fs": true}, 'L': {"fl": true, "htlb": true}}[alg]
+		if anyWanted(algOnly) {
+			shortSequences(alg, n, nFull, func(b []byte) {
+				dd.Kinds["short"]++
+				handle(b)
+			})
+		}
+		algOnly = map[string]bool{"st": true, "sts": true}
+		if anyWanted(algOnly) {
+			shortSequences(alg, n-1, nFull-1, func(b []byte) {
 				dd.Kinds["short"]++
 				handle(b)
 			})
 		}
 	}
+	algOnly = nil
 	flush()
 	// collapse the state histogram to counts of distinct states per entry point
 	agg := map[string]int{}
@@ -1087,16 +1135,15 @@ func stageSpec(d *driver, cs *caseSource, kindsWanted []string, withStep bool, t
 		}
 	})
 	cs.eachLong(cs.n/400, 800, func(i int, gc genCase) { handle(gc.input, kindsWanted) })
-	if thorough {
-		for _, k := range kindsWanted {
-			alg := map[string]byte{"fg": 'G', "fw": 'W', "fs": 'S', "fl": 'L'}[k]
-			n := 3
-			if alg == 'G' {
-				n = 4
-			}
-			kk := k
-			shortSequences(alg, n, func(b []byte) { handle(b, []string{kk}) })
+	// small scope, exhaustive (see smallAlphabet): one symbol shorter than stage E5's in the quick tier
+	for _, k := range kindsWanted {
+		alg := map[string]byte{"fg": 'G', "fw": 'W', "fs": 'S', "fl": 'L'}[k]
+		n, nFull := smallScopeLen(alg, thorough)
+		if !thorough {
+			n, nFull = n-1, nFull-1
 		}
+		kk := k
+		shortSequences(alg, n, nFull, func(b []byte) { handle(b, []string{kk}) })
 	}
 	flush()
 	return s
